@@ -8,7 +8,7 @@ from vlib import core, gen
 PROP = "C03"
 META = {
     "technique": "Coq proof: integer arithmetic with explicit uint32/uint64 wraps over an executable model of createBufferManager/mappingBufferManager/create*/mapping* queue code, induction over the (size, percent) list; tie: generated constants, per-side field offsets, percent literals and queue half indices + differential execution of the real functions on generated configurations",
-    "level_text": "Queues: C03_queues / C03_queues_memfd hold in full (every uint32 capacity, both back-ends, cross-wiring over the generated half indices) since /repo 97d22d3. Buffers and peer view: C03_buffers_config / C03_peer_view_config hold for every configuration VerifyConfig accepts (capacity < 2^32, sizes <= capacity, percent sum = 100 in int) up to the last byte below 4 GiB, under two hypotheses the code does not enforce (size+20 < 2^32 - refuted on accepted input and listed as known finding C03:slice-size-plus-header-wraps; list headers fit); C03_buffers_partial / C03_peer_view_partial hold for ARBITRARY uint32 percentages, any pair list and any initial memory below 4 GiB - 36 B; the unrestricted statements are kept and refuted by computed witnesses. C03_initial_chain: the free chain visits exactly the slots. The model is tied to /repo by regenerated constants/offsets/percent literals/half indices (a creator/mapper mismatch breaks the proof at coqc time) and by running the real functions on hundreds of configurations (heap bytes, /dev/shm files, memfds, lazily backed 4 GiB mappings) whose outcome class and class/queue geometry must equal the model's; an independent oracle checks disjointness, bounds, header placement, peer equality, the initial free chain and queue cross-wiring on the Go structures of every case.",
+    "level_text": "Queues: C03_queues / C03_queues_memfd hold in full (every uint32 capacity, both back-ends, cross-wiring over the generated half indices) since /repo 97d22d3. Buffers and peer view: C03_buffers_config / C03_peer_view_config hold for every configuration VerifyConfig accepts (capacity < 2^32, sizes <= capacity, percent sum = 100 in int) up to the last byte below 4 GiB, under one hypothesis the code does not enforce (the list headers fit: 36*#pairs+8 <= capacity); a size whose stride wraps is rejected since /repo db4e530; C03_buffers_partial / C03_peer_view_partial hold for ARBITRARY uint32 percentages, any pair list and any initial memory below 4 GiB - 36 B; the unrestricted statements are kept and refuted by computed witnesses. C03_initial_chain: the free chain visits exactly the slots. The model is tied to /repo by regenerated constants/offsets/percent literals/half indices (a creator/mapper mismatch breaks the proof at coqc time) and by running the real functions on hundreds of configurations (heap bytes, /dev/shm files, memfds, lazily backed 4 GiB mappings) whose outcome class and class/queue geometry must equal the model's; an independent oracle checks disjointness, bounds, header placement, peer equality, the initial free chain and queue cross-wiring on the Go structures of every case.",
     "level_note": "Trusted: coqc kernel; cell-granular memory (aligned 4-byte header words); offset argument 0 (all callers); amd64 branch of mappingQueueFromBytes; mmap/ftruncate/memfd semantics of the kernel; configurations are sampled; queue capacities beyond 200000 on the real code: three capacities above 2^32/12 on lazily backed anonymous mappings (put/pop at the last element), the rest only against memory that is too short. Not covered by a theorem: accepted configurations with a capacity within 36 bytes of 4 GiB AND more than 119 million pairs.",
 }
 
@@ -103,10 +103,7 @@ def run_harness(n, seed, tag):
 # behaviours outside the proved guards that were reproduced on the real code with inputs VerifyConfig accepts:
 # message -> stable signature for known_findings.json.  (The three queue-capacity-wrap entries are `fixed`
 # since /repo 97d22d3 and the harness now checks the repaired behaviour as part of the property.)
-DEGEN_SIG = {
-    "createBufferManager panics on a configuration VerifyConfig accepts: Size + bufferHeaderSize wraps in uint32":
-        "C03:slice-size-plus-header-wraps",
-}
+DEGEN_SIG = {}
 
 
 def signature(msg):
@@ -188,7 +185,7 @@ def check(run):
         "slots_total": sum(x["cap"] for c in cases for x in (c.get("cclasses") or [])),
     })
     run.assumptions += [
-        "C03_buffers_config: size + 20 < 2^32 for every pair (NOT enforced by the code; refuted on accepted input, known finding C03:slice-size-plus-header-wraps) and 36*#pairs + 8 <= capacity (VerifyConfig does not bound the number of pairs)",
+        "C03_buffers_config: 36*#pairs + 8 <= capacity (VerifyConfig does not bound the number of pairs)",
         "C03_buffers_partial / C03_peer_view_partial (arbitrary percentages): mapping shorter than 4 GiB - 36 B; fewer than 65536 classes for the peer view",
         "buffer-manager offset argument 0 (every caller); amd64 branch of mappingQueueFromBytes; mapping sizes are 64-bit ints",
         "memory is cell-granular in the model: header fields are aligned 4-byte words (checked against the generated offsets)"]
